@@ -8,9 +8,10 @@ Open Scope Z_scope.
 (* induction principle for the nested template type *)
 Section PtInd.
   Variable P : pt -> Prop.
-  Hypothesis HAtom : forall k reads dur cs ms, P (Atom k reads dur cs ms).
+  Hypothesis HAtom : forall k chs reads dur cs ms, P (Atom k chs reads dur cs ms).
   Hypothesis HAMC : forall subs cs ms, Forall P subs -> P (AMC subs cs ms).
   Hypothesis HPar : forall inner ow, P inner -> P (Par inner ow).
+  Hypothesis HAri : forall inner sa sc, P inner -> P (Ari inner sa sc).
   Hypothesis HSeq : forall subs cs ms, Forall P subs -> P (Seq subs cs ms).
   Hypothesis HRep : forall body count cs ms, P body -> P (Rep body count cs ms).
   Hypothesis HFor : forall body i a b st cs ms, P body -> P (For body i a b st cs ms).
@@ -18,11 +19,12 @@ Section PtInd.
 
   Fixpoint pt_ind' (p : pt) : P p :=
     match p with
-    | Atom k reads dur cs ms => HAtom k reads dur cs ms
+    | Atom k chs reads dur cs ms => HAtom k chs reads dur cs ms
     | AMC subs cs ms =>
         HAMC subs cs ms ((fix go (l : list pt) : Forall P l :=
                             match l with [] => Forall_nil P | q :: r => Forall_cons q (pt_ind' q) (go r) end) subs)
     | Par inner ow => HPar inner ow (pt_ind' inner)
+    | Ari inner sa sc => HAri inner sa sc (pt_ind' inner)
     | Seq subs cs ms =>
         HSeq subs cs ms ((fix go (l : list pt) : Forall P l :=
                             match l with [] => Forall_nil P | q :: r => Forall_cons q (pt_ind' q) (go r) end) subs)
@@ -58,38 +60,40 @@ Proof. reflexivity. Qed.
 Lemma verd_cons : forall A o (l : list ob) (k : result A), verd (o :: l) k = verd [o] (verd l k).
 Proof. intros. change (o :: l) with ([o] ++ l). apply verd_app. Qed.
 
-Lemma refines_refl : forall A (a : result A), refines a a.
+Section Ref.
+Variable D : Prop.
+Lemma refines_refl : forall A (a : result A), refinesD D a a.
 Proof. left; auto. Qed.
-Lemma refines_missing : forall A (b : result A), refines (Err Missing) b.
+Lemma refines_missing : forall A (b : result A), refinesD D (Err Missing) b.
 Proof. right; left; auto. Qed.
-#[export] Hint Resolve refines_refl refines_missing : c03.
+Hint Resolve refines_refl refines_missing : c03.
 
-(* sequencing: a step that refines `verd l (Ok x0)` followed by a continuation *)
+(* sequencing: a step that refinesD D `verd l (Ok x0)` followed by a continuation *)
 Lemma bind_ref : forall A B (a : result A) (l : list ob) (x0 : A) (f : A -> result B) (K : result B),
-  refines a (verd l (Ok x0)) -> refines (f x0) K -> refines (bind a f) (verd l K).
+  refinesD D a (verd l (Ok x0)) -> refinesD D (f x0) K -> refinesD D (bind a f) (verd l K).
 Proof.
   intros A B a l x0 f K Ha Hf. unfold verd in *.
   destruct (first_fail (map ob_stat l)) as [e|].
-  - destruct Ha as [-> | [-> | [Hb ->]]]; cbn; auto with c03.
-    inversion Hb; subst. right; right; auto.
-  - destruct Ha as [-> | [-> | [Hb ->]]]; cbn; auto with c03. discriminate.
+  - destruct Ha as [-> | [-> | [Hb [-> | HD]]]]; cbn; auto with c03;
+      inversion Hb; subst; right; right; auto.
+  - destruct Ha as [-> | [-> | [Hb Ha]]]; cbn; auto with c03. discriminate.
 Qed.
 
 (* the continuation may depend on a fact about x0 *)
 Lemma bind_ref' : forall A B (a : result A) (l : list ob) (x0 : A) (f : A -> result B) (K : result B),
-  refines a (verd l (Ok x0)) -> (first_fail (map ob_stat l) = None -> refines (f x0) K) ->
-  refines (bind a f) (verd l K).
+  refinesD D a (verd l (Ok x0)) -> (first_fail (map ob_stat l) = None -> refinesD D (f x0) K) ->
+  refinesD D (bind a f) (verd l K).
 Proof.
   intros A B a l x0 f K Ha Hf. unfold verd in *.
   destruct (first_fail (map ob_stat l)) as [e|].
-  - destruct Ha as [-> | [-> | [Hb ->]]]; cbn; auto with c03.
-    inversion Hb; subst. right; right; auto.
-  - destruct Ha as [-> | [-> | [Hb ->]]]; cbn; auto with c03. discriminate.
+  - destruct Ha as [-> | [-> | [Hb [-> | HD]]]]; cbn; auto with c03;
+      inversion Hb; subst; right; right; auto.
+  - destruct Ha as [-> | [-> | [Hb Ha]]]; cbn; auto with c03. discriminate.
 Qed.
 
 (* ------------------------------------------------------------------------------------------------------------ *)
 (* primitive steps *)
-Lemma validate_ref : forall s cs, refines (validate s cs) (verd (obs_c (lookup s) cs) (Ok tt)).
+Lemma validate_ref : forall s cs, refinesD D (validate s cs) (verd (obs_c (lookup s) cs) (Ok tt)).
 Proof.
   intros s cs. induction cs as [|c r IH]; cbn [validate obs_c map]; auto with c03.
   fold (obs_c (lookup s) r). rewrite verd_cons.
@@ -100,14 +104,14 @@ Proof.
   destruct (ceval (lookup s) c) as [[|]|]; cbn; auto with c03.
 Qed.
 
-Lemma eval_all_ref : forall s es, refines (eval_all s es) (verd (obs_r (lookup s) es) (Ok tt)).
+Lemma eval_all_ref : forall s es, refinesD D (eval_all s es) (verd (obs_r (lookup s) es) (Ok tt)).
 Proof.
   intros s es. induction es as [|e r IH]; cbn [eval_all obs_r map]; auto with c03.
   fold (obs_r (lookup s) r). rewrite verd_cons. unfold verd at 1. cbn [map first_fail ob_stat].
   destruct (eval (lookup s) e); cbn; auto with c03.
 Qed.
 
-Lemma meas_ref : forall s ms, refines (meas s ms) (verd (obs_m (lookup s) ms) (Ok tt)).
+Lemma meas_ref : forall s ms, refinesD D (meas s ms) (verd (obs_m (lookup s) ms) (Ok tt)).
 Proof.
   intros s ms. induction ms as [|[b l] r IH]; cbn [meas obs_m flat_map]; auto with c03.
   fold (obs_m (lookup s) r). cbn [fst snd app].
@@ -121,8 +125,8 @@ Proof.
 Qed.
 
 Lemma eval_int_ref : forall B s e (f : Z -> result B) (K : result B),
-  (forall z, int_of (lookup s) e = Some z -> refines (f z) K) ->
-  refines (bind (eval_int s e) f) (verd [OI e (lookup s)] K).
+  (forall z, int_of (lookup s) e = Some z -> refinesD D (f z) K) ->
+  refinesD D (bind (eval_int s e) f) (verd [OI e (lookup s)] K).
 Proof.
   intros B s e f K H. unfold eval_int, verd, int_of in *. cbn [map first_fail ob_stat].
   destruct (eval (lookup s) e) as [q|]; cbn; auto with c03.
@@ -130,8 +134,8 @@ Proof.
 Qed.
 
 Lemma eval_nz_ref : forall B s e (f : Z -> result B) (K : result B),
-  (forall z, int_of (lookup s) e = Some z -> z <> 0 -> refines (f z) K) ->
-  refines (bind (eval_int s e) (fun z => if z =? 0 then Err Other else f z)) (verd [ONZ e (lookup s)] K).
+  (forall z, int_of (lookup s) e = Some z -> z <> 0 -> refinesD D (f z) K) ->
+  refinesD D (bind (eval_int s e) (fun z => if z =? 0 then Err Other else f z)) (verd [ONZ e (lookup s)] K).
 Proof.
   intros B s e f K H. unfold eval_int, verd, int_of in *. cbn [map first_fail ob_stat].
   destruct (eval (lookup s) e) as [q|]; cbn; auto with c03.
@@ -140,13 +144,16 @@ Proof.
 Qed.
 
 Lemma is_zero_ref : forall B s e (f : bool -> result B) (K : result B),
-  (eval (lookup s) e <> None -> refines (f (negb (nonzero (lookup s) e))) K) ->
-  refines (bind (is_zero s e) f) (verd [OR e (lookup s)] K).
+  (eval (lookup s) e <> None -> refinesD D (f (negb (nonzero (lookup s) e))) K) ->
+  refinesD D (bind (is_zero s e) f) (verd [OR e (lookup s)] K).
 Proof.
   intros B s e f K H. unfold is_zero, verd, nonzero in *. cbn [map first_fail ob_stat].
   destruct (eval (lookup s) e) as [q|]; cbn; auto with c03.
   rewrite negb_involutive in H. apply H. discriminate.
 Qed.
+
+End Ref.
+#[export] Hint Resolve refines_refl refines_missing : c03.
 
 (* ------------------------------------------------------------------------------------------------------------ *)
 (* coincidence for the atomic part of the specification: only declared names are read *)
@@ -174,28 +181,75 @@ Proof.
   rewrite (eval_agree l _ _ H1), (eval_agree r _ _ H2); auto.
 Qed.
 
-Lemma obs_c_agree : forall cs r1 r2, agree (cvars_l cs) r1 r2 ->
-  map ob_stat (obs_c r1 cs) = map ob_stat (obs_c r2 cs).
+Lemma ob_stat_abs : forall o, ob_stat o = astat (ob_abs o).
+Proof. destruct o; reflexivity. Qed.
+Lemma map_stat_abs : forall l, map ob_stat l = map astat (map ob_abs l).
+Proof. intros. rewrite map_map. apply map_ext. apply ob_stat_abs. Qed.
+
+Lemma peval_agree : forall e r1 r2, agree (vars e) r1 r2 -> peval r1 e = peval r2 e.
+Proof.
+  induction e; cbn; intros r1 r2 H; auto.
+  - rewrite (H x); [auto|left; auto].
+  - apply agree_app in H as [H1 H2]. rewrite (IHe1 _ _ H1), (IHe2 _ _ H2); auto.
+  - apply agree_app in H as [H1 H2]. rewrite (IHe1 _ _ H1), (IHe2 _ _ H2); auto.
+  - apply agree_app in H as [H1 H2]. rewrite (IHe1 _ _ H1), (IHe2 _ _ H2); auto.
+Qed.
+Lemma res_closed_agree : forall e r1 r2, agree (vars e) r1 r2 -> res_closed r1 e = res_closed r2 e.
+Proof. intros. unfold res_closed. rewrite (peval_agree e _ _ H); auto. Qed.
+
+Lemma obs_c_agree_a : forall cs r1 r2, agree (cvars_l cs) r1 r2 ->
+  map ob_abs (obs_c r1 cs) = map ob_abs (obs_c r2 cs).
 Proof.
   induction cs as [|c cs IH]; intros r1 r2 H; cbn; auto.
   unfold cvars_l in H; cbn in H. apply agree_app in H as [H1 H2].
   rewrite (ceval_agree c _ _ H1). f_equal. apply IH; auto.
 Qed.
 
-Lemma obs_r_agree : forall es r1 r2, agree (vars_l es) r1 r2 ->
-  map ob_stat (obs_r r1 es) = map ob_stat (obs_r r2 es).
+Lemma obs_r_agree_a : forall es r1 r2, agree (vars_l es) r1 r2 ->
+  map ob_abs (obs_r r1 es) = map ob_abs (obs_r r2 es).
 Proof.
   induction es as [|e es IH]; intros r1 r2 H; cbn; auto.
   unfold vars_l in H; cbn in H. apply agree_app in H as [H1 H2].
   rewrite (eval_agree e _ _ H1). f_equal. apply IH; auto.
 Qed.
 
-Lemma obs_m_agree : forall ms r1 r2, agree (mvars_l ms) r1 r2 ->
-  map ob_stat (obs_m r1 ms) = map ob_stat (obs_m r2 ms).
+Lemma obs_f_agree_a : forall es r1 r2, agree (vars_l es) r1 r2 ->
+  map ob_abs (obs_f r1 es) = map ob_abs (obs_f r2 es).
+Proof.
+  induction es as [|e es IH]; intros r1 r2 H; cbn; auto.
+  unfold vars_l in H; cbn in H. apply agree_app in H as [H1 H2].
+  rewrite (eval_agree e _ _ H1), (res_closed_agree e _ _ H1). f_equal. apply IH; auto.
+Qed.
+
+Lemma obs_m_agree_a : forall ms r1 r2, agree (mvars_l ms) r1 r2 ->
+  map ob_abs (obs_m r1 ms) = map ob_abs (obs_m r2 ms).
 Proof.
   induction ms as [|[b l] ms IH]; intros r1 r2 H; cbn; auto.
   unfold mvars_l in H; cbn in H. apply agree_app in H as [H1 H2]. apply agree_app in H1 as [Hb Hl].
   rewrite (eval_agree b _ _ Hb), (eval_agree l _ _ Hl). do 2 f_equal. apply IH; auto.
+Qed.
+
+Lemma obs_c_agree : forall cs r1 r2, agree (cvars_l cs) r1 r2 -> map ob_stat (obs_c r1 cs) = map ob_stat (obs_c r2 cs).
+Proof. intros. rewrite !map_stat_abs. f_equal. apply obs_c_agree_a; auto. Qed.
+Lemma obs_r_agree : forall es r1 r2, agree (vars_l es) r1 r2 -> map ob_stat (obs_r r1 es) = map ob_stat (obs_r r2 es).
+Proof. intros. rewrite !map_stat_abs. f_equal. apply obs_r_agree_a; auto. Qed.
+Lemma obs_m_agree : forall ms r1 r2, agree (mvars_l ms) r1 r2 -> map ob_stat (obs_m r1 ms) = map ob_stat (obs_m r2 ms).
+Proof. intros. rewrite !map_stat_abs. f_equal. apply obs_m_agree_a; auto. Qed.
+
+Lemma positive_agree : forall e r1 r2, agree (vars e) r1 r2 -> positive r1 e = positive r2 e.
+Proof. intros. unfold positive. rewrite (eval_agree e _ _ H); auto. Qed.
+
+(* the expressions of the kept channels are among the expressions of all channels *)
+Lemma kept_vars : forall dr l x, In x (vars_l (kept dr l)) -> In x (vars_l (map snd l)).
+Proof.
+  intros dr l x H. unfold vars_l, kept in *. apply in_flat_map in H as [e [He Hx]]. apply in_flat_map. exists e. split; auto.
+  apply in_map_iff in He as [ce [<- Hce]]. apply filter_In in Hce as [Hce _]. apply in_map; auto.
+Qed.
+Lemma kept_combine_vars : forall dr chs reads x, In x (vars_l (kept dr (combine chs reads))) -> In x (vars_l reads).
+Proof.
+  intros dr chs reads x H. apply kept_vars in H. unfold vars_l in *. apply in_flat_map in H as [e [He Hx]].
+  apply in_flat_map. exists e. split; auto. apply in_map_iff in He as [[c e'] [<- Hce]]. cbn.
+  eapply in_combine_r; eauto.
 Qed.
 
 Lemma nonzero_agree : forall e r1 r2, agree (vars e) r1 r2 -> nonzero r1 e = nonzero r2 e.
@@ -241,49 +295,60 @@ Proof. unfold agree; auto. Qed.
 Lemma flat_map_in_sub : forall (q : pt) l, In q l -> forall x, In x (pnames q) -> In x (flat_map pnames l).
 Proof. intros q l Hq x Hx. apply in_flat_map. exists q; auto. Qed.
 
-Definition atomic_coincide (p : pt) : Prop :=
+Definition atomic_coincide_a (p : pt) : Prop :=
   wf p -> forall r1 r2 drop, agree (pnames p) r1 r2 ->
-    map ob_stat (obs_build p r1 drop) = map ob_stat (obs_build p r2 drop)
+    map ob_abs (obs_build p r1 drop) = map ob_abs (obs_build p r2 drop)
     /\ wave p r1 drop = wave p r2 drop
-    /\ map ob_stat (obs_meas p r1) = map ob_stat (obs_meas p r2).
+    /\ map ob_abs (obs_meas p r1) = map ob_abs (obs_meas p r2).
 
-Lemma atomic_coincidence : forall p, atomic_coincide p.
+Lemma atomic_coincidence_a : forall p, atomic_coincide_a p.
 Proof.
-  induction p using pt_ind'; unfold atomic_coincide; intros Hwf r1 r2 drop Hag; cbn [pnames] in Hag.
+  induction p using pt_ind'; unfold atomic_coincide_a; intros Hwf r1 r2 drop Hag; cbn [pnames] in Hag.
   - (* Atom *)
     apply agree_app in Hag as [Hr Hag]. apply agree_app in Hag as [Hd Hag]. apply agree_app in Hag as [Hm Hc].
     cbn [obs_build wave obs_meas]. split; [|split].
-    + rewrite !map_app. rewrite (obs_c_agree cs _ _ Hc). f_equal.
+    + rewrite !map_app. rewrite (obs_c_agree_a cs _ _ Hc). f_equal.
       destruct k.
-      * rewrite !map_app. rewrite (obs_r_agree reads _ _ Hr). cbn. rewrite (eval_agree dur _ _ Hd); auto.
-      * destruct drop; auto. cbn. rewrite (eval_agree dur _ _ Hd). f_equal.
-        rewrite (nonzero_agree dur _ _ Hd). destruct (nonzero r2 dur); auto. apply obs_r_agree; auto.
-      * destruct drop; auto. cbn. rewrite (eval_agree dur _ _ Hd). f_equal. apply obs_r_agree; auto.
-    + unfold atom_wave. rewrite (nonzero_agree dur _ _ Hd); auto.
-    + apply obs_m_agree; auto.
+      * rewrite !map_app. rewrite (obs_r_agree_a reads _ _ Hr). cbn. rewrite (eval_agree dur _ _ Hd); auto.
+      * destruct (adrop chs drop); auto. cbn. rewrite (eval_agree dur _ _ Hd). f_equal.
+        rewrite (nonzero_agree dur _ _ Hd). destruct (nonzero r2 dur); auto. apply obs_r_agree_a; auto.
+      * destruct (adrop chs drop); auto. cbn. rewrite (eval_agree dur _ _ Hd). f_equal. apply obs_f_agree_a; auto.
+      * cbn. rewrite (eval_agree dur _ _ Hd). f_equal.
+        rewrite (positive_agree dur _ _ Hd). destruct (positive r2 dur); auto. apply obs_r_agree_a.
+        eapply agree_sub; [|exact Hr]. apply kept_combine_vars.
+    + unfold atom_wave. rewrite (nonzero_agree dur _ _ Hd), (positive_agree dur _ _ Hd); auto.
+    + apply obs_m_agree_a; auto.
   - (* AMC *)
     apply agree_app in Hag as [Hm Hag]. apply agree_app in Hag as [Hc Hs].
     cbn [wf] in Hwf. destruct Hwf as [_ Hwf]. apply wf_subs in Hwf.
     assert (Hall : forall q, In q subs ->
-              map ob_stat (obs_build q r1 drop) = map ob_stat (obs_build q r2 drop)
+              map ob_abs (obs_build q r1 drop) = map ob_abs (obs_build q r2 drop)
               /\ wave q r1 drop = wave q r2 drop
-              /\ map ob_stat (obs_meas q r1) = map ob_stat (obs_meas q r2)).
+              /\ map ob_abs (obs_meas q r1) = map ob_abs (obs_meas q r2)).
     { intros q Hq. rewrite Forall_forall in H, Hwf. apply (H q Hq (Hwf q Hq)).
       eapply agree_sub; [|exact Hs]. apply flat_map_in_sub; auto. }
     clear H Hwf Hs. cbn [obs_build wave obs_meas]. split; [|split].
-    + rewrite !map_app. rewrite (obs_c_agree cs _ _ Hc). f_equal.
+    + rewrite !map_app. rewrite (obs_c_agree_a cs _ _ Hc). f_equal.
       induction subs as [|q subs IH]; cbn; auto. rewrite !map_app.
       rewrite (proj1 (Hall q (or_introl eq_refl))). f_equal. apply IH. intros; apply Hall; right; auto.
     + induction subs as [|q subs IH]; cbn; auto.
       rewrite (proj1 (proj2 (Hall q (or_introl eq_refl)))). f_equal. apply IH. intros; apply Hall; right; auto.
-    + rewrite !map_app. rewrite (obs_m_agree ms _ _ Hm). f_equal.
+    + rewrite !map_app. rewrite (obs_m_agree_a ms _ _ Hm). f_equal.
       induction subs as [|q subs IH]; cbn; auto. rewrite !map_app.
       rewrite (proj2 (proj2 (Hall q (or_introl eq_refl)))). f_equal. apply IH. intros; apply Hall; right; auto.
   - (* Par *)
     apply agree_app in Hag as [Hi Ho]. cbn [wf] in Hwf.
     destruct (IHp Hwf r1 r2 drop Hi) as [H1 [H2 H3]].
     cbn [obs_build wave obs_meas]. split; [|split]; auto.
-    rewrite !map_app, H1, H2. f_equal. destruct (wave p r2 drop); auto. apply obs_r_agree; auto.
+    rewrite !map_app, H1, H2. f_equal. destruct (wave p r2 drop); auto. apply obs_r_agree_a.
+    eapply agree_sub; [|exact Ho]. apply kept_vars.
+  - (* Ari *)
+    apply agree_app in Hag as [Hi Ho]. cbn [wf] in Hwf.
+    destruct (IHp Hwf r1 r2 drop Hi) as [H1 [H2 H3]].
+    cbn [obs_build wave obs_meas]. split; [|split]; auto.
+    rewrite !map_app, H1, H2. f_equal. destruct (wave p r2 drop); auto. apply obs_r_agree_a.
+    apply agree_app in Ho as [Ha Hc]. unfold vars_l. rewrite flat_map_app. apply agree_app. split; auto.
+    eapply agree_sub; [|exact Hc]. apply kept_vars.
   - cbn; auto.
   - cbn; auto.
   - cbn; auto.
@@ -293,5 +358,14 @@ Proof.
     { apply map_env_agree; auto. apply subset_in; auto. }
     destruct (IHp Hwf _ _ drop Hag') as [H1 [H2 H3]].
     cbn [obs_build wave obs_meas]. split; [|split]; auto.
-    rewrite !map_app, H1. f_equal. apply obs_c_agree; auto.
+    rewrite !map_app, H1. f_equal. apply obs_c_agree_a; auto.
+Qed.
+
+Lemma atomic_coincidence : forall p, wf p -> forall r1 r2 drop, agree (pnames p) r1 r2 ->
+    map ob_stat (obs_build p r1 drop) = map ob_stat (obs_build p r2 drop)
+    /\ wave p r1 drop = wave p r2 drop
+    /\ map ob_stat (obs_meas p r1) = map ob_stat (obs_meas p r2).
+Proof.
+  intros p Hwf r1 r2 drop Hag. destruct (atomic_coincidence_a p Hwf r1 r2 drop Hag) as [H1 [H2 H3]].
+  rewrite !map_stat_abs, H1, H3. auto.
 Qed.
